@@ -49,6 +49,7 @@ func NewConnection(connection net.Conn, context Context) *Connection {
 func (con *Connection) EncryptedWrite(b []byte) (int, error) {
 	var buffer bytes.Buffer
 	buffer.Write(b)
+	verifYield("write:pre-seal", b)
 	encrypted, err := con.getEncrypter().Encrypt(&buffer)
 
 	if err != nil {
@@ -58,6 +59,7 @@ func (con *Connection) EncryptedWrite(b []byte) (int, error) {
 	}
 
 	encryptedBytes, err := ioutil.ReadAll(encrypted)
+	verifYield("write:sealed", b)
 	n, err := con.connection.Write(encryptedBytes)
 
 	return n, err
@@ -124,6 +126,7 @@ func (con *Connection) readFrame() ([]byte, error) {
 // Write writes bytes to the connection.
 // The written bytes are encrypted when possible.
 func (con *Connection) Write(b []byte) (int, error) {
+	verifYield("write:enter", b)
 	if con.getEncrypter() != nil {
 		return con.EncryptedWrite(b)
 	}
